@@ -136,9 +136,24 @@ def strip(t, wrappers=("computed",), ext_wrappers=("asnumpy", "asarray", "comput
 class TermDomain(Domain):
     name = "terms"
 
-    def __init__(self, transparent_compute=True, summarise=()):
+    def __init__(self, transparent_compute=True, summarise=(), assume_isinstance=None):
+        self.assume_isinstance = dict(assume_isinstance or {})  # parameter name -> class name the parameter is assumed to be an instance of
         self.transparent_compute = transparent_compute
         self.summarise = set(summarise)  # repo functions kept as uninterpreted symbols: f(args) -> T("call", ext f, args)
+
+    def type_test(self, interp, name, args, node):
+        """`isinstance(p, C)` for a parameter p assumed to be an instance of one class (a type case of the function under analysis)."""
+        if name != "builtins.isinstance" or len(args) != 2 or not self.assume_isinstance:
+            return NotImplemented
+        v, c = args
+        cname = getattr(getattr(c, "cls", None), "name", None) or (str(getattr(c, "name", "")).rsplit(".", 1)[-1] if getattr(c, "name", None) else None)
+        if cname is None:
+            return NotImplemented
+        if isinstance(v, T) and v.op == "param" and v.args[0] in self.assume_isinstance:
+            return Const(self.assume_isinstance[v.args[0]] == cname)
+        if isinstance(v, (Tup, ListOf, Const, DictV)) and cname in self.assume_isinstance.values():
+            return Const(False)
+        return NotImplemented
 
     def call_repo(self, interp, funcs, bound, args, kwargs, node):
         names = {f.name for f in funcs}
